@@ -455,7 +455,7 @@ func init() {
 			return out
 		},
 		Floors: func(tier string) map[string]int64 {
-			return map[string]int64{"pairs": 300, "journal_steps": 3000, "aligned_steps": 50000, "gas_equations_checked": 100, "malformed_cases": 150}
+			return map[string]int64{"pairs": 300, "journal_steps": 3000, "aligned_steps": 50000, "gas_equations_checked": 40, "malformed_cases": 150}
 		},
 	})
 }
